@@ -486,6 +486,83 @@ def answers (d dout : Nat) : Sess α → List (SOp α) → List (Option (Vec α 
 
 end Sess
 
+/-! ### Mixture of experts: a public attribute selects the formula
+
+`MOERegressor.hard` is a documented public attribute of the model object, initialised from the settings
+and free to be assigned by the user after the training. `_predict` passes the value it reads *at the
+call* to `classifier.predict_proba(input_data, hard=self.hard)` and sums the local predictions weighted
+by these probabilities; `_predict_jacobian` reads the same attribute at the call: hard → the Jacobian of
+the local model of the predicted class, soft → `NotImplementedError`. The clustering, the classifier and
+the fits of the local models are not modelled: the classifier is the pair of functions it computes, the
+local models are their prediction and Jacobian functions (objects of their own, covered by the regressor
+theorems). -/
+
+/-- A trained mixture of experts. -/
+structure Moe (α : Type) where
+  /-- fitted input / output transformers of the mixture -/
+  tin : List (Step α)
+  tout : List (Step α)
+  /-- number of clusters -/
+  K : Nat
+  /-- `regress_models[c].predict`, `regress_models[c].predict_jacobian` (on the transformed inputs) -/
+  expert : Nat → Vec α → Vec α
+  expertJac : Nat → Vec α → Mat α
+  /-- `classifier.predict` and `classifier.predict_proba(·, hard=False)` -/
+  cls : Vec α → Nat
+  proba : Vec α → Nat → α
+  /-- the CURRENT value of the public attribute `hard` -/
+  hard : Bool
+
+/-- Operations on the trained object: the user assigns `hard`, or asks `predict(x)` and
+    `predict_jacobian(x)`. -/
+inductive MOp (α : Type) where
+  | setHard (b : Bool)
+  | query (x : Vec α)
+
+namespace Moe
+
+/-- `classifier.predict_proba(z, hard)`: the indicator of the predicted class, or the probabilities. -/
+def weights (m : Moe α) (hard : Bool) (z : Vec α) (c : Nat) : α :=
+  if hard then (if c = m.cls z then 1 else 0) else m.proba z c
+
+/-- `_predict`: `(probas * local_outputs).sum(axis=1)` with the probabilities selected by the value of
+    `hard` read at the call (`k` transformed inputs are not needed: the local models read what they read). -/
+def corePredict (m : Moe α) (z : Vec α) : Vec α :=
+  fun i => sumTo m.K (fun c => m.weights m.hard z c * m.expert c z i)
+
+/-- `_predict_jacobian_hard`: the Jacobian of the local model of the predicted class. -/
+def coreJacHard (m : Moe α) (z : Vec α) : Mat α := m.expertJac (m.cls z) z
+
+/-- `predict`. -/
+def predict (m : Moe α) (x : Vec α) : Vec α := regPredict m.tin m.tout m.corePredict x
+
+/-- `predict_jacobian`: dispatches on the value of `hard` read at the call; `none` = the soft formula
+    raises `NotImplementedError` (`d` inputs, `dout` outputs). -/
+def jacobian (m : Moe α) (d dout : Nat) (x : Vec α) : Option (Mat α) :=
+  if m.hard then
+    some (regJac m.tin m.tout (pipeOutDim m.tin d) (pipeOutDim m.tout dout) m.coreJacHard x)
+  else none
+
+/-- One operation: the new state and, for a query, the prediction and the Jacobian (if offered). -/
+def step (d dout : Nat) (m : Moe α) : MOp α → Moe α × Option (Vec α × Option (Mat α))
+  | MOp.setHard b => ({ m with hard := b }, none)
+  | MOp.query x => (m, some (m.predict x, m.jacobian d dout x))
+
+def run (d dout : Nat) (m : Moe α) (ops : List (MOp α)) : Moe α :=
+  ops.foldl (fun m op => (step d dout m op).1) m
+
+def answers (d dout : Nat) : Moe α → List (MOp α) → List (Option (Vec α × Option (Mat α)))
+  | _, [] => []
+  | m, op :: rest => (step d dout m op).2 :: answers d dout (step d dout m op).1 rest
+
+/-- The value of `hard` after a history: the last assignment, the initial value if there is none. -/
+def lastHard (h0 : Bool) : List (MOp α) → Bool
+  | [] => h0
+  | MOp.setHard b :: rest => lastHard b rest
+  | MOp.query _ :: rest => lastHard h0 rest
+
+end Moe
+
 end Num
 
 /-! ### RBF network in `Float` (driver only; the real-analysis statement is in `Analysis/`) -/
